@@ -218,6 +218,13 @@ def run(tier, t0):
                         others[f'uncompact(level {via}, {r})'] = a5.uncompact(list(base), r)
                 if r > 6:
                     raise StopIteration
+                if r >= 2:
+                    # a cover of mixed levels: coarse cells, cells one level down and cells already at the target level, interleaved
+                    mixed = []
+                    for i, c in enumerate(sorted(level_ids[1])):
+                        mixed.extend(a5.cell_to_children(c, r) if i % 3 == 1 else (a5.cell_to_children(c, 2) if i % 3 == 2 else [c]))
+                    others[f'uncompact(mixed cover of levels 1/2/{r}, {r})'] = a5.uncompact(list(mixed), r)
+                    others[f'uncompact(reversed mixed cover, {r})'] = a5.uncompact(list(reversed(mixed)), r)
                 # ... and the remaining public enumerators of a level
                 others['uncompact([world], r)'] = a5.uncompact([ser.WORLD_CELL], r)
                 others['uncompact(get_res0_cells(), r)'] = a5.uncompact(list(a5.get_res0_cells()), r)
@@ -236,6 +243,29 @@ def run(tier, t0):
                     acc.violation(f'level-enum2:{name}:level={r}', f'{name} enumerates {len(ids)} ids ({len(set(ids))} distinct), expected the {nc} ids of level {r}', case)
                 else:
                     acc.n['validated'] += len(ids)
+    # long jumps: one call spanning 1..8 (thorough 10) Hilbert levels from parents at several depths, through cell_to_children and uncompact
+    if not acc.violations:
+        parents = [(0,), (3, 2), (7, 4, 1), (11, 0, 3, 2, 1, 0), (5, 1) + (2, 1, 3, 0) * 5]
+        for path in parents:
+            c = rm.encode(path)
+            pr = rm.res(path)
+            for k in range(1, (8 if tier == 'quick' else 10) + 1):
+                b = pr + k
+                if b > 29 or rm.num_desc(pr, b) > 4 ** (8 if tier == 'quick' else 10):
+                    break
+                case = {'level': b, 'jump_from': list(path)}
+                want = {rm.encode(q) for q in rm.descendants(path, b)}
+                try:
+                    got = {'cell_to_children': a5.cell_to_children(c, b), 'uncompact': a5.uncompact([c], b)}
+                except Exception as e:
+                    acc.violation(f'long-jump-raises:{"/".join(map(str, path))}:to={b}', f'enumerating the level-{b} descendants of {c:#x} in one call raised {e!r}', case)
+                    break
+                for name, ids in got.items():
+                    acc.n['transitions'] += len(ids)
+                    if len(ids) != len(want) or set(ids) != want:
+                        acc.violation(f'long-jump:{name}:{"/".join(map(str, path))}:to={b}', f'{name}({c:#x}, {b}) gives {len(ids)} ids ({len(set(ids))} distinct), expected the {len(want)} level-{b} descendants', case)
+                    else:
+                        acc.n['validated'] += len(ids)
     # ids of different levels must be distinct too
     allids = set()
     total = 0
